@@ -3,6 +3,7 @@ package props
 import (
 	"fmt"
 	"go/constant"
+	"go/token"
 	"go/types"
 	"strings"
 	"utilcheck/flow"
@@ -10,6 +11,8 @@ import (
 	"utilcheck/tab"
 
 	"utilcheck/pred"
+
+	"golang.org/x/tools/go/ssa"
 )
 
 // ordOracle orders symbols by an explicit table keyed "a|b".
@@ -262,10 +265,31 @@ func (e *Env) globalTables() func(name string) (pred.Val, bool) {
 			return nil, false
 		}
 		pkg, vn := name[:i], name[i+1:]
+		wantMap := strings.HasSuffix(vn, "#map")
+		vn = strings.TrimSuffix(vn, "#map")
 		p := e.P.ByPkg[pkg]
 		g := e.P.Var(pkg, vn)
 		if p == nil || g == nil || !e.C.WrittenOnlyByInit(g) {
 			return nil, false
+		}
+		if mt, isMap := g.Type().Underlying().(*types.Pointer).Elem().Underlying().(*types.Map); isMap || wantMap {
+			if !isMap || !wantMap {
+				return nil, false
+			}
+			t, err := tab.Literal(p, vn)
+			if err != nil {
+				return nil, false
+			}
+			mv := &pred.MapV{Name: pkg + "." + vn, Entries: map[string]pred.Val{}, ElemT: mt.Elem()}
+			for k, key := range t.Keys {
+				if key == nil || t.Values[k] == nil {
+					return nil, false
+				}
+				mv.Entries[key.ExactString()] = pred.Const{V: t.Values[k]}
+			}
+			delete(miss, name)
+			cache[name] = mv
+			return mv, true
 		}
 		var elemT types.Type
 		switch t := g.Type().Underlying().(*types.Pointer).Elem().Underlying().(type) {
@@ -324,4 +348,142 @@ func (e *Env) globalTables() func(name string) (pred.Val, bool) {
 		cache[name] = out
 		return out, true
 	}
+}
+
+// formatCall evaluates a formatter fn(buf, value, flag) with bytes.Buffer and fmt's printing functions modelled
+// (byteSinkSummaries) and internal.Bprintf evaluated through (its body is decided by ruleBprintf), so that a formatter
+// that calls Bprintf and one that has it inlined evaluate alike. The result must be (buf followed by one rendering
+// fmt.Sprintf(format, operands...), nil); captured = [what the rendering is appended to, the format, the operands].
+func (e *Env) formatCall(fn *ssa.Function, args []pred.Val) (captured []pred.Val, ret pred.Val, err error) {
+	ev := &pred.Evaluator{Prog: e.P.SSA, GlobalInit: e.globalTables(), Oracle: noOracle{}, Summaries: byteSinkSummaries()}
+	out, err := ev.Eval(fn, args)
+	if err != nil {
+		return nil, nil, err
+	}
+	ret = out.Ret
+	t, ok := out.Ret.(pred.Tuple)
+	if !ok || len(t) != 2 {
+		return nil, ret, nil
+	}
+	app, ok := t[0].(pred.Term)
+	if !ok || app.Fn != "builtin.append" || len(app.Args) != 2 {
+		return nil, ret, nil
+	}
+	sp, ok := app.Args[1].(pred.Term)
+	if !ok || sp.Fn != "fmt.Sprintf" || len(sp.Args) != 2 {
+		return nil, ret, nil
+	}
+	return []pred.Val{app.Args[0], sp.Args[0], sp.Args[1]}, ret, nil
+}
+
+// newInlined adds, next to a summary of date.New, summaries of the two FromTime forms that stand for the same thing
+// when New has been inlined at its call site: FromTime(time.Date(y, m, d, 0, 0, 0, 0, time.UTC)) is New(y, m, d)
+// (that New is exactly that composition is the obligation of ruleNewDeleg). Anything else handed to FromTime is
+// undecided here.
+func newInlined(sums map[string]pred.Summary, mk func(args []pred.Val) pred.Val) {
+	asNew := func(arg pred.Val) (pred.Val, error) {
+		t, ok := arg.(pred.Term)
+		if !ok || t.Fn != "time.Date" || len(t.Args) != 8 || t.Args[7].String() != "*time.UTC" {
+			return nil, &pred.Undecided{Reason: fmt.Sprintf("FromTime applied to %v, not to time.Date(y, m, d, 0, 0, 0, 0, time.UTC)", arg)}
+		}
+		for _, a := range t.Args[3:7] {
+			if a.String() != "0" {
+				return nil, &pred.Undecided{Reason: fmt.Sprintf("FromTime applied to %v: not a midnight", arg)}
+			}
+		}
+		return mk(t.Args[:3]), nil
+	}
+	sums["go.lstv.dev/util/date.FromTime"] = func(ev *pred.Evaluator, args []pred.Val) (pred.Val, error) {
+		return asNew(args[0])
+	}
+	sums["(*go.lstv.dev/util/date.Date).FromTime"] = func(ev *pred.Evaluator, args []pred.Val) (pred.Val, error) {
+		p, ok := args[0].(pred.Ptr)
+		if !ok || p.Cell == nil || len(p.Path) != 0 {
+			return nil, &pred.Undecided{Reason: "(*Date).FromTime on an unmodelled receiver"}
+		}
+		v, err := asNew(args[1])
+		if err != nil {
+			return nil, err
+		}
+		p.Cell.V = v
+		return pred.Tuple{}, nil
+	}
+}
+
+// flagTest decides what a branch condition says about one bit of a flags parameter: +1 if cond holds exactly when
+// flags&bit != 0, -1 if exactly when flags&bit == 0, 0 if neither is shown. Recognised: the comparison of flags&bit
+// with 0 or with bit, a negation, and a call of a function of the module with the flags and constants as arguments
+// (a helper such as hasFlag(f, FormatLowerCase)), which is evaluated with that bit set and with it clear, every
+// other bit unknown.
+func (e *Env) flagTest(cond ssa.Value, flags ssa.Value, bit int64) int {
+	switch x := cond.(type) {
+	case *ssa.UnOp:
+		if x.Op == token.NOT {
+			return -e.flagTest(x.X, flags, bit)
+		}
+	case *ssa.BinOp:
+		if x.Op != token.EQL && x.Op != token.NEQ {
+			return 0
+		}
+		and, ok := x.X.(*ssa.BinOp)
+		if !ok || and.Op != token.AND {
+			return 0
+		}
+		k, isK := flow.ConstInt(and.Y)
+		other := and.X
+		if !isK {
+			k, isK = flow.ConstInt(and.X)
+			other = and.Y
+		}
+		c, isC := flow.ConstInt(x.Y)
+		if !isK || !isC || k != bit || flow.StripConv(other) != flags {
+			return 0
+		}
+		switch {
+		case c == 0 && x.Op == token.NEQ, c == bit && x.Op == token.EQL:
+			return 1
+		case c == 0 && x.Op == token.EQL, c == bit && x.Op == token.NEQ:
+			return -1
+		}
+	case *ssa.Call:
+		g := e.C.StaticCallee(&x.Call)
+		if g == nil || !flow.InRepo(g) || bitIndex(bit) < 0 {
+			return 0
+		}
+		res := [2]int{}
+		for v := 0; v < 2; v++ {
+			var args []pred.Val
+			for _, a := range x.Call.Args {
+				switch {
+				case flow.StripConv(a) == flags:
+					b := pred.SymBits("flags", pred.WordBits, true)
+					b.B[bitIndex(bit)] = pred.Bit{K: byte('0' + v)}
+					args = append(args, b)
+				default:
+					k, ok := flow.ConstInt(a)
+					if !ok {
+						return 0
+					}
+					args = append(args, pred.Const{V: constant.MakeInt64(k)})
+				}
+			}
+			ev := &pred.Evaluator{Prog: e.P.SSA, GlobalInit: e.globalTables(), Oracle: noOracle{}}
+			out, err := ev.Eval(flow.Origin(g), args)
+			if err != nil || out.Panic {
+				return 0
+			}
+			c, ok := out.Ret.(pred.Const)
+			if !ok || c.V == nil || c.V.Kind() != constant.Bool {
+				return 0
+			}
+			res[v] = map[bool]int{true: 1, false: -1}[constant.BoolVal(c.V)]
+		}
+		if res[1] == 1 && res[0] == -1 {
+			return 1
+		}
+		if res[1] == -1 && res[0] == 1 {
+			return -1
+		}
+	}
+	return 0
 }
